@@ -198,14 +198,15 @@ class GrowthDomain(FactDomain):
             places = min(places + 1, 2)
         if isinstance(f, ast.Attribute) and f.attr == 'setParent' and call.args:
             recv = src(f.value)
-            X = src(call.args[0])
+            X_raw = src(call.args[0])
+            X = src(g.il.expand(call.args[0]))          # a local alias of the candidate node names the same node
             self._rec(('R16.5', 'setParent receiver ' + src(call)), recv == g.new, call.lineno,
                       '%s (a node that may already be in the tree) receives a parent: re-wiring tree nodes can create cycles '
                       'and invalidates stored costs' % recv)
             if recv == g.new:
                 self._rec(('R16.5', 'setParent before insertion ' + src(call)), places == 0, call.lineno,
                           'setParent after the node was placed in the tree')
-                free = any(self.has(facts, False, '%s(%s, %s)' % (g.coll, a, b)) for a, b in ((g.new, X), (X, g.new)))
+                free = any(self.has(facts, False, '%s(%s, %s)' % (g.coll, a, b)) for x_ in (X, X_raw) for a, b in ((g.new, x_), (x_, g.new)))
                 self._rec(('R16.3', src(call)), free, call.lineno,
                           'parent link to %s is not dominated by a negative collision test %s(%s, %s)' % (X, g.coll, g.new, X))
                 if not first:
